@@ -356,6 +356,11 @@ func (r *ruleData) isWatchShaped() bool {
 	if r.fields[1] != permField {
 		return false
 	}
+	// A watch is built from the cleaned, absolute path, so any other spelling
+	// would not be the same rule when parsed again.
+	if len(r.strings) == 0 || !filepath.IsAbs(r.strings[0]) || filepath.Clean(r.strings[0]) != r.strings[0] {
+		return false
+	}
 	return len(r.fields) == 2 || r.fields[2] == keyField
 }
 
